@@ -9,7 +9,8 @@ class C16(BaseCheck):
   RULE = ('three case kinds. singleton: real SingletonPoolSink over harness-owned multiplexing connections '
           '(open delay 0-0.5 s, may fail): 10-120 ops of concurrent/sequential requests (each in its own '
           'greenlet), completions, connection failures at any point (idle, opening, busy), time advances, the holder '
-          'closing the pool and re-opening / using it while an underlying Close() that yields is still in flight; '
+          'closing the pool and re-opening / using it while an underlying Close() that yields is still in flight, '
+          'windows in which the healthy connection reports Busy; '
           'provider-side invariants: <= 1 live connection, requests racing the first open share it, a failed '
           'connection is replaced on the next request and never used again, nothing is live after the last holder '
           'closed. refcount: random Open/Close '
@@ -126,7 +127,7 @@ class C16(BaseCheck):
         if self.failed and r['issued_seq'] > self.failed_seq:
           out.violate('singleton:dead-connection-used', 'request %d, issued after connection %d had failed, '
                       'was still given that connection' % (r['id'], self.id), {})
-        if self._state != OPEN:
+        if self._state not in (OPEN, BUSY):
           sink_stack.AsyncProcessResponseMessage(MethodReturnMessage(error=Exception('Sink not open.')))
           return
         r['stack'] = sink_stack
@@ -198,6 +199,20 @@ class C16(BaseCheck):
         pool.Open()
         if rng.random() < 0.5:
           issue()
+      elif k < 0.76:
+        # the healthy connection reports Busy for a while (e.g. a transport that is re-establishing
+        # its socket): still the pool's one connection, requests during the window share it
+        lv = [c for c in conns if not c.failed and c._state == OPEN]
+        if lv:
+          classes.add('busy-window')
+          c_ = lv[0]
+          c_._state = BUSY
+          for _i in range(rng.choice([1, 2])):
+            issue()
+          env.settle()
+          inv()
+          if c_._state == BUSY:
+            c_._state = OPEN
       elif k < 0.8:
         lv = [c for c in conns if not c.failed and c._state != CLOSED]
         if lv:
